@@ -1,4 +1,4 @@
-import FalconModel.Cors
+import FalconModel.CorsConfig
 open Co
 
 /-! Line-protocol driver for the CORS policy model (C20): `Co.processF` = `CORSMiddleware.process_response` as it is in the
@@ -9,7 +9,19 @@ open Co
     S = `.` followed by the hex of the string (so `.` is the empty string), `~` = None, `-` = empty collection,
     `*` = the wildcard literal.  K ∈ acao acac acam acah acma aceh allow o<n> (any other response header, numbered).
     Reply: the response header map after the call, restricted to the same keys:
-      acao=~|S acac=… acam=… acah=… acma=… aceh=… allow=… other=-|o<n>:S;…   (others in the order given) -/
+      acao=~|S acac=… acam=… acah=… acma=… aceh=… allow=… other=-|o<n>:S;…   (others in the order given)
+
+    `Cg.normalise` = `CORSMiddleware.__init__`:
+      norm ao=A ex=A ac=A          A = ~ (None) | s<S> (a str) | l- (empty iterable) | l<S>,<S>,… (an iterable's items, in order)
+    Reply: `cfg ao=*|-|S,S,… ac=*|-|S,S,… ex=~|S` (sets printed sorted by their encoding) or
+           `err wildcard-origins | wildcard-credentials | origins-not-iterable`.
+
+    `Cg.appInit` / `Cg.runAdds` (the `cors_enable` wiring) and `Pl.run` on the resulting stack:
+      stack ce=0|1 indep=0|1 arg=M adds=-|M/M/… target=route|nomethod|sink|nothing resp=ret|raise fail=-|<n> pf=0|1
+      M = ~ (None) | s<K> (one bare component) | l- | l<K>,<K>,…     K = u (a CORSMiddleware of the caller) | o<n> (another component)
+    Other components define process_request (raises iff n = fail) and process_response (returns).
+    Reply: `init=err` or `init=ok adds=-|<0/1 per call> stack=K,… calls=-|K:<resource set>:<req_succeeded>,…` where the component
+    that cors_enable constructed prints as `C:?:<req_succeeded if pf=1 else ?>` (its flag is only observable in a preflight). -/
 
 def kv (ws : List String) (k : String) : String :=
   match ws.find? (·.startsWith (k ++ "=")) with
@@ -62,11 +74,78 @@ def runCase (ws : List String) : String :=
   " ".intercalate (named.map fun (nm, k) => nm ++ "=" ++ encOpt (get out k))
     ++ " other=" ++ (if oth.isEmpty then "-" else ";".intercalate oth)
 
+/-! ### constructor normalisation -/
+def decArg (s : String) : Cg.Arg :=
+  match s.toList with
+  | 's' :: r => .str (decS (String.ofList r))
+  | 'l' :: r => let t := String.ofList r; if t == "-" || t == "" then .iter [] else .iter ((t.splitOn ",").map decS)
+  | _ => .none
+
+def insertSorted (x : String) : List String → List String
+  | [] => [x]
+  | y :: ys => if x < y then x :: y :: ys else if x == y then y :: ys else y :: insertSorted x ys
+def sortStrs (l : List String) : List String := l.foldr insertSorted []
+
+def encOrigins : Origins → String
+  | .any => "*"
+  | .only l => if l.isEmpty then "-" else ",".intercalate (sortStrs (l.map encS))
+
+def runNorm (ws : List String) : String :=
+  let raw : Cg.RawConfig := { allowOrigins := decArg (kv ws "ao"), exposeHeaders := decArg (kv ws "ex"),
+                              allowCredentials := decArg (kv ws "ac") }
+  match Cg.normalise raw with
+  | .ok c => s!"cfg ao={encOrigins c.allowOrigins} ac={encOrigins c.allowCredentials} ex={encOpt c.exposeHeaders}"
+  | .error .wildcardInOrigins => "err wildcard-origins"
+  | .error .wildcardInCredentials => "err wildcard-credentials"
+  | .error .originsNotIterable => "err origins-not-iterable"
+
+/-! ### cors_enable wiring + the call discipline on the resulting stack -/
+def decMw (s : String) : Option Cg.Mw :=
+  match s.toList with
+  | ['u'] => some (.cors false)
+  | 'o' :: r => (String.ofList r).toNat?.map Cg.Mw.other
+  | _ => none
+def decMwArg (s : String) : Cg.MwArg :=
+  match s.toList with
+  | 's' :: r => match decMw (String.ofList r) with | some m => .single m | none => .none
+  | 'l' :: r => let t := String.ofList r; if t == "-" || t == "" then .iter [] else .iter ((t.splitOn ",").filterMap decMw)
+  | _ => .none
+def encMw : Cg.Mw → String
+  | .cors true => "C"
+  | .cors false => "u"
+  | .other n => s!"o{n}"
+def b01 (b : Bool) : String := if b then "1" else "0"
+
+def runStack (ws : List String) : String :=
+  let ce := kv ws "ce" == "1"
+  match Cg.appInit ce (decMwArg (kv ws "arg")) with
+  | .error _ => "init=err"
+  | .ok st0 =>
+    let addsS := kv ws "adds"
+    let adds := if addsS == "-" || addsS == "" then [] else (addsS.splitOn "/").map decMwArg
+    let (st, oks) := Cg.runAdds ce st0 adds
+    let fail := (kv ws "fail").toNat?
+    let beh : Nat → Pl.Comp := fun n => { req := some (if fail == some n then .raise_ else .ret), rsrc := none, resp := some .ret }
+    let target : Pl.Target := match kv ws "target" with
+      | "route" => .route | "nomethod" => .noMethod | "sink" => .sink | _ => .nothing
+    let cfg : Pl.Cfg := { comps := Cg.comps beh st, independent := kv ws "indep" == "1", target := target,
+                          responder := if kv ws "resp" == "raise" then .raise_ else .ret }
+    let pf := kv ws "pf" == "1"
+    let calls := (Pl.run cfg).filterMap fun c => match c with
+      | .resp i hr ok => match st[i]? with
+        | some (.cors true) => some s!"C:?:{if pf then b01 ok else "?"}"
+        | some m => some s!"{encMw m}:{b01 hr}:{b01 ok}"
+        | none => some "?"
+      | _ => none
+    s!"init=ok adds={if oks.isEmpty then "-" else String.join (oks.map b01)} stack={if st.isEmpty then "-" else ",".intercalate (st.map encMw)} calls={if calls.isEmpty then "-" else ",".intercalate calls}"
+
 partial def loop (h : IO.FS.Stream) : IO Unit := do
   let line ← h.getLine
   if line.isEmpty then return ()
   match line.trimAscii.toString.splitOn " " with
   | "p" :: ws => IO.println (runCase ws)
+  | "norm" :: ws => IO.println (runNorm ws)
+  | "stack" :: ws => IO.println (runStack ws)
   | _ => IO.println "bad-line"
   loop h
 def main : IO Unit := do loop (← IO.getStdin)
